@@ -314,6 +314,14 @@ pub const C04C: ConcCheck = ConcCheck {
     mk_probe: NO_PROBE,
 };
 
+/// the same ledger oracle over the families in which values are cleared, retained away, migrated
+/// by a resize, or drained from a bin that is being treeified
+pub const C04R: ConcCheck = ConcCheck { sub: "conc-clear", mix: Mix::Readers, ..C04C };
+pub const C04T: ConcCheck = ConcCheck { sub: "conc-retain", mix: Mix::Retain, ..C04C };
+pub const C04Z: ConcCheck = ConcCheck { sub: "conc-resize", mix: Mix::Resize, ..C04C };
+pub const C04D: ConcCheck = ConcCheck { sub: "conc-drain", mix: Mix::Drain, ..C04C };
+pub const C04_ALL: [&ConcCheck; 5] = [&C04C, &C04R, &C04T, &C04Z, &C04D];
+
 /* ------------------------------- C08 ------------------------------- */
 
 fn c08_judge(prog: &Prog, out: &ConcOut) -> Result<(bool, Vec<(&'static str, u64)>), JudgeErr> {
